@@ -10,8 +10,8 @@ import (
 )
 
 var verifHarnesses = map[string]func(){
-	"VerifC20PeersDiff":    VerifC20PeersDiff,
-	"VerifC20SelfFilter":   VerifC20SelfFilter,
+	"VerifC20PeersDiff":  VerifC20PeersDiff,
+	"VerifC20SelfFilter": VerifC20SelfFilter,
 }
 
 func member(set []peer.ID, p peer.ID) bool {
